@@ -98,8 +98,9 @@ func (core *JApiCore) collectPathVariables(d *directive.Directive) *jerr.JApiErr
 	parentDirective := *d.Parent
 
 	if len(core.rawPathVariables) != 0 {
-		prevParent := core.rawPathVariables[len(core.rawPathVariables)-1].parentDirective
-		if prevParent.Equal(parentDirective) {
+		// The parents are compared by identity: the copies of one MACRO directive
+		// pasted in different places have the same coordinates.
+		if core.rawPathVariables[len(core.rawPathVariables)-1].pathDirective.Parent == d.Parent {
 			return d.KeywordError(jerr.NotUniqueDirective)
 		}
 	}
